@@ -459,6 +459,10 @@ func (g *graph) addBranch(startNode string, branch *GraphBranch, skipData bool) 
 		return fmt.Errorf("branch start node '%s' needs to be added to graph first", startNode)
 	}
 
+	if len(branch.endNodes) == 0 {
+		return errors.New("branch has no end node")
+	}
+
 	if len(branch.endNodes) == 1 {
 		return fmt.Errorf("number of branches is 1")
 	}
